@@ -9,6 +9,16 @@ CHECKS = {
    note="Trusted: Coq kernel, extraction (ExtrOcamlBasic), OCaml driver, Go harness, python comparison. Modelled not verified: float64 hardware path of Multiply/Divide/Rescale is covered by the correspondence inside the 2^52 domain; AmountFromFloat64/Float64/formatter not covered.",
    technique="Rocq theorems over a Gallina model + differential correspondence (extracted OCaml vs Go)",
    design="7 (C05)"),
+ "C12": dict(
+   text="Rocq theorems (rocq/Props/C12.v, 19 statements, axiom-free) over the Gallina transcription of tax.RateDef.Value / Combo.prepareRate (Rates/Lookup.v, model = code after the proposed one-token repair of the start-date comparison): the value looked up is applicable, has started, is the latest started among the applicable ones and the first such in table order; a value is in force on its start date itself; no answer iff the date precedes every applicable value, and then the preparation fails with invalid-date instead of guessing; exempt keys yield no percentage. Generated-data theorems (vm_compute of boolean checkers + proved soundness) state for EVERY rate table the code registers and every published table: unqualified values strictly descending, applicable values descending in every tag/extension context, every date valid. The as-shipped comparison is refuted in the same file (ES VAT standard on 2012-09-01 answers 18%). Tie: translator regenerates Gen/Regimes.v from tax.AllRegimeDefs() on every run; exhaustive correspondence Go vs extracted model over every regime x category x rate x qualifier context x {start-1,start,start+1, fixed, random dates} through RateDef.Value, tax.TotalCalculator and bill.Invoice.Calculate (issue_date and value_date), plus synthetic tables; oracle P from the published JSON.",
+   note="Trusted: Coq kernel incl. vm_compute, extraction, OCaml driver, Go harness (harness/c12.go, gen_regimes.go), python comparison and P. Known finding C12-start-date-exclusive (findings/C12.json, fix in fixes/C12-1-start-date-inclusive.diff). Modelled not verified: regime/addon normalisers that could rewrite a combo before the lookup (the invoice stream would show a difference).",
+   technique="Rocq theorems over a Gallina model and over translated tables + exhaustive differential correspondence (extracted OCaml vs Go) + independent table oracle",
+   design="7 (C12)"),
+ "C19": dict(
+   text="Rocq theorems over generated data (rocq/Props/C19.v, axiom-free, vm_compute of boolean checkers + proved soundness lemmas): every regime, addon and catalogue the code registers is published under the generator's file name with the same structural content (published_equals_in_code); no other file is published except the recorded stale data/regimes/gr.json (published_only_defined_partial); every regime and addon names an existing currency and only refers to defined extensions, extension codes, rate-value tags, addons and invoice types, with unique regime, addon, catalogue, currency, extension, category, rate and regime tag keys (all_definitions_coherent); scenario tags of regimes and tag keys of addons are defined/unique except the two recorded definitions (tags_defined_and_unique_partial). Tie: translator writes Gen/*.v from the live registries and Gen/Published.v from data/*.json through one rendering routine; the repository's own generators are run in a scratch copy and all 109 files under data/ are byte-compared; RegimeDef.Validate / AddonDef.Validate / time.LoadLocation on every definition; every regime and schema file requested from `gobl serve` /bulk; independent python JSON comparison and reference search must name the same definitions as the extracted checkers.",
+   note="Trusted: Coq kernel incl. vm_compute, extraction, OCaml driver, the structural projection of harness/gen_regimes.go (texts are compared by bytes only), Go harness, python. Known findings C19-stale-gr-json, C19-in-scenario-tags-undefined, C19-it-sdi-duplicate-tag (findings/C19.json, fixes/C19-*.diff); the `_partial` theorems name their recorded exceptions in Defs/Coherence.v. Correction stamps are only checked to be non-empty (no stamp registry exists in the data).",
+   technique="Rocq theorems over translated definition data + regeneration byte-diff + differential search (extracted checkers vs python over JSON)",
+   design="7 (C19)"),
 }
 
 CALC_NOTE = ("Trusted: Coq kernel, extraction, OCaml driver, Go harness, python generator/comparison and the independent python reading of the calculation. "
